@@ -9,6 +9,7 @@ import (
 	"net/http"
 	"net/http/httptest"
 	"runtime"
+	"runtime/debug"
 	"strings"
 	"sync"
 	"testing"
@@ -156,7 +157,7 @@ func runLayerA(c *aCase) aResult {
 					if what != "" {
 						cls = v + ":" + what + ":" + k
 					}
-					run.Violation(comp, rule, cls,
+					violation(len(c.hist), comp, rule, cls,
 						fmt.Sprintf("layer A history [%s] (lag=%v): after step %d (%s) the standby's %s is %s, expected %s", histString(c.hist), c.lag, step, c.hist[step], v, now[v], want),
 						c.witness(step, map[string]any{"view": v, "standby_before": prev[v].String(), "standby_after": now[v].String(), "expected": want.String(), "differences": ds}))
 				}
@@ -172,7 +173,7 @@ func runLayerA(c *aCase) aResult {
 			return
 		}
 		if err := sb.VerifC13HandleSSEData(data); err != nil {
-			run.Violation(compStream, ruleOrder, "handler-error:"+string(msg.Type), fmt.Sprintf("handleSSEData returned %v for a message the active produced", err), c.witness(step, map[string]any{"message": string(data)}))
+			violation(len(c.hist), compStream, ruleOrder, "handler-error:"+string(msg.Type), fmt.Sprintf("handleSSEData returned %v for a message the active produced", err), c.witness(step, map[string]any{"message": string(data)}))
 			res.violations++
 		}
 		if msg.Type == ha.SyncTypeHeartbeat {
@@ -259,7 +260,7 @@ func runLayerA(c *aCase) aResult {
 			res.failedSyncs++
 			cnt("A_failed_full_syncs", 1)
 			if err == nil {
-				run.Violation(compFull, ruleFull, "failed-get-reported-as-completed:"+o.F, "performFullSync returned nil although the GET failed ("+o.F+")", c.witness(step, nil))
+				violation(len(c.hist), compFull, ruleFull, "failed-get-reported-as-completed:"+o.F, "performFullSync returned nil although the GET failed ("+o.F+")", c.witness(step, nil))
 				res.violations++
 			}
 			prev = views() // a failed sync is not a completed one: nothing is required of the table
@@ -277,7 +278,7 @@ func runLayerA(c *aCase) aResult {
 			}
 			snap := tableOf(msg.Sessions)
 			if ds := diffTables(snap, model); len(ds) > 0 {
-				run.Violation(compGet, ruleSnap, strings.Join(diffKinds(ds), "+"), fmt.Sprintf("GET /ha/sessions served %s while the active's table is %s", snap, model), c.witness(step, map[string]any{"differences": ds}))
+				violation(len(c.hist), compGet, ruleSnap, strings.Join(diffKinds(ds), "+"), fmt.Sprintf("GET /ha/sessions served %s while the active's table is %s", snap, model), c.witness(step, map[string]any{"differences": ds}))
 				res.violations++
 			}
 			if len(diffTables(before, snap)) > 0 {
@@ -305,11 +306,27 @@ func runLayerA(c *aCase) aResult {
 	if connected && res.violations == 0 && len(c.hist) > 0 {
 		cnt("A_convergence_points_judged", 1)
 		if ds := diffTables(sbStore.table(), model); len(ds) > 0 {
-			run.Violation(compLoop, ruleConv, "layerA:"+strings.Join(diffKinds(ds), "+"), fmt.Sprintf("layer A history [%s]: every step judged fine, link up, queue empty, yet standby %s != active %s", histString(c.hist), sbStore.table(), model), c.witness(len(c.hist)-1, map[string]any{"differences": ds}))
+			violation(len(c.hist), compLoop, ruleConv, "layerA:"+strings.Join(diffKinds(ds), "+"), fmt.Sprintf("layer A history [%s]: every step judged fine, link up, queue empty, yet standby %s != active %s", histString(c.hist), sbStore.table(), model), c.witness(len(c.hist)-1, map[string]any{"differences": ds}))
 		}
 	}
 	res.finalKey = fmt.Sprintf("%v|%d|%d", connected, len(model), len(prev["store"]))
 	return res
+}
+
+// safeLayerA turns a panic of the code under test into a witness instead of losing the run.
+func safeLayerA(c *aCase) (r aResult) {
+	defer func() {
+		if p := recover(); p != nil {
+			cls := digits.ReplaceAllString(fmt.Sprint(p), "N")
+			if len(cls) > 100 {
+				cls = cls[:100]
+			}
+			violation(len(c.hist), "ha.HASyncer (message handling)", "no-panic", cls, fmt.Sprintf("layer A history [%s] (lag=%v) panicked: %v", histString(c.hist), c.lag, p),
+				map[string]any{"layer": "A", "history": histString(c.hist), "lag": c.lag, "panic": fmt.Sprint(p), "stack": string(debug.Stack())})
+			r.violations++
+		}
+	}()
+	return runLayerA(c)
 }
 
 func recordA(c *aCase, r aResult) {
@@ -363,7 +380,7 @@ func parallelA(cases <-chan *aCase, sample func(*aCase, aResult)) {
 		go func() {
 			defer wg.Done()
 			for c := range cases {
-				r := runLayerA(c)
+				r := safeLayerA(c)
 				recordA(c, r)
 				if sample != nil {
 					sample(c, r)
